@@ -32,6 +32,37 @@ TOL_FIT32 = 1e-3
 TOL_FIT64 = 1e-6
 TOL_ROLL = 2e-5
 UNITS = ["A", "A", "A^-1", "A^-1"]
+# known-finding key (only consulted when known_findings.json lists it as an open finding): the
+# curve_fit based fitter raises RuntimeError (MINPACK info=8) on some origin maps that it fits exactly
+KEY_EXACT = "C18-fit-origin-exact-fit-raises"
+
+
+class _ExactFitRaised(Exception):
+    pass
+
+
+class _fit_sut:
+    """ctx.sut, except that while KEY_EXACT is an open known finding its specific RuntimeError is
+    counted as excluded (raised to the caller as _ExactFitRaised) instead of being a violation."""
+
+    def __init__(self, ctx, case, what):
+        self.ctx, self.case, self.what = ctx, case, what
+        self.cm = ctx.sut(case, what)
+
+    def __enter__(self):
+        return self.cm.__enter__()
+
+    def __exit__(self, et, ev, tb):
+        if (
+            et is not None
+            and self.ctx.is_open(KEY_EXACT)
+            and issubclass(et, RuntimeError)
+            and "Optimal parameters not found" in str(ev)
+            and "gtol" in str(ev)
+        ):
+            self.ctx.exclude(KEY_EXACT)
+            raise _ExactFitRaised() from ev
+        return self.cm.__exit__(et, ev, tb)
 
 
 def _q():
@@ -140,16 +171,19 @@ def _check_com(ctx, case):
     paths = {}
     for vec in (True, False):
         name = "vectorised" if vec else "looped"
-        with ctx.sut(case, "_set_intensities_com(%s, mask=%s, fit=%r)" % (name, "yes" if mask is not None else "no", fit)):
-            # a fresh copy per call: the looped path multiplies the mask into its argument in place
-            pd._set_intensities_com(
-                pd.intensities_4d.copy(),
-                dp_mask=None if mask is None else mask.copy(),
-                fit_function=fit,
-                vectorized_calculation=vec,
-            )
-            cm = pd.com_measured
-            cf = pd.com_fit
+        try:
+            with _fit_sut(ctx, case, "_set_intensities_com(%s, mask=%s, fit=%r)" % (name, "yes" if mask is not None else "no", fit)):
+                # a fresh copy per call: the looped path multiplies the mask into its argument in place
+                pd._set_intensities_com(
+                    pd.intensities_4d.copy(),
+                    dp_mask=None if mask is None else mask.copy(),
+                    fit_function=fit,
+                    vectorized_calculation=vec,
+                )
+                cm = pd.com_measured
+                cf = pd.com_fit
+        except _ExactFitRaised:
+            return
         cm, cf = _np64(cm), _np64(cf)
         if cm.shape != (2, a, b) or cf.shape != (2, a, b):
             raise core.Violation("%s path: com_measured/com_fit shapes %s/%s, expected %s" % (name, cm.shape, cf.shape, (2, a, b)), case)
@@ -184,7 +218,13 @@ def _check_fit(ctx, case):
     ctx.record(
         case,
         bool(nontrivial),
-        ["kind:fit", "method:" + method, "fit_origin_data:" + case["data_dtype"], "fit_origin_mask:" + case["fo_mask"]],
+        [
+            "kind:fit",
+            "method:" + method,
+            "fit_origin_data:" + case["data_dtype"],
+            "fit_origin_mask:" + case["fo_mask"],
+            "surface:" + ("flat" if not any(sr[1:] + sc[1:]) else "tilted"),
+        ],
     )
 
     # --- origin model: measured origins set through the public setter (as force_measured_origin) --
@@ -207,8 +247,11 @@ def _check_fit(ctx, case):
     if case["fo_mask"] == "all_true":
         kw["mask"] = np.ones((a, b), dtype=bool)  # what _set_intensities_com passes (finite mask)
     tol = TOL_FIT64 if dt == np.float64 else TOL_FIT32
-    with ctx.sut(case, "ptycho_utils.fit_origin(%s, mask=%s)" % (method, case["fo_mask"])):
-        out = pu.fit_origin(data=(zr.astype(dt), zc.astype(dt)), **kw)
+    try:
+        with _fit_sut(ctx, case, "ptycho_utils.fit_origin(%s, mask=%s)" % (method, case["fo_mask"])):
+            out = pu.fit_origin(data=(zr.astype(dt), zc.astype(dt)), **kw)
+    except _ExactFitRaised:
+        return
     if len(out) != 4:
         raise core.Violation("fit_origin returned %d values, expected 4" % len(out), case)
     fr, fc, rr, rc = (_np64(o) for o in out)
@@ -281,6 +324,6 @@ def check(ctx, case):
 
 
 def search(ctx):
-    core.run_given(ctx, "com", gd.com_cases(), lambda c: check(ctx, c), ctx.n(700, 9000))
-    core.run_given(ctx, "fit", gd.fit_cases(), lambda c: check(ctx, c), ctx.n(500, 6000))
-    core.run_given(ctx, "shift", gd.shift_cases(), lambda c: check(ctx, c), ctx.n(500, 6000))
+    core.run_given(ctx, "com", gd.com_cases(), lambda c: check(ctx, c), ctx.n(1500, 15000))
+    core.run_given(ctx, "fit", gd.fit_cases(), lambda c: check(ctx, c), ctx.n(1000, 10000))
+    core.run_given(ctx, "shift", gd.shift_cases(), lambda c: check(ctx, c), ctx.n(800, 8000))
